@@ -268,7 +268,9 @@ class XPathNode:
                     if c.name == child.name:
                         pos += 1
                 elif isinstance(c, child.__class__):
-                    pos += 1
+                    # processing instructions are counted by target name
+                    if not isinstance(c, ProcessingInstructionNode) or c.name == child.name:
+                        pos += 1
                 if c is child:
                     break
         return pos
@@ -735,7 +737,7 @@ class ProcessingInstructionNode(XPathNode):
     @property
     def path(self) -> str:
         if self.parent is None:
-            return '/processing-instruction({self.name})[1]'
+            return f'/processing-instruction({self.name})[1]'
 
         pos = self.parent.get_child_position(self)
         if isinstance(self.parent, ElementNode):
